@@ -170,7 +170,21 @@ fn convex_radii<R: Rng>(rng: &mut R, n: usize) -> Vec<f64> {
     let patterned = rng.gen_bool(0.35);
     for _ in 0..40 {
         let scale = rng.gen_range(0.5, 1.6);
-        let radii: Vec<f64> = if patterned {
+        let radii: Vec<f64> = if patterned && rng.gen_bool(0.3) {
+            // redundant points: a vertex exactly on the chord between its neighbours (weakly
+            // convex; what drawing a side through an extra point gives) - every second vertex,
+            // or a single one, at any position in the list
+            let c = scale * (2. * PI / n as f64).cos();
+            if n >= 5 && rng.gen_bool(0.5) {
+                let first = rng.gen_range(0, 2);
+                (0..n).map(|i| if n % 2 == 0 && i % 2 == first { c } else if n % 2 == 1 && i == first { c } else { scale }).collect()
+            } else if n >= 5 {
+                let at = rng.gen_range(0, n);
+                (0..n).map(|i| if i == at { c } else { scale }).collect()
+            } else {
+                vec![scale; n]
+            }
+        } else if patterned {
             // polygons with symmetry short of regular: radii repeating with period 2, 3 or n/2
             // (rhombi, alternating hexagons - equal sides, unequal radii), or two values only
             let period = [2usize, 2, 3, (n / 2).max(2)][rng.gen_range(0, 4)];
